@@ -55,7 +55,25 @@ def spec_part_recipe(rng, node=None):
     p["value"] = arg([("value", "none"), ("value", "length"), ("value", "dtype")], [0, "a", 2.5])
     if rng.random() < 0.25:
         p["cond"] = gd.spec_tree_recipe(rng, depth=rng.choice([0, 1]), kinds=[("value", "none"), ("value", "dtype")], null_p=0.0)
+    if rk == "mol" and rng.random() < 0.3:
+        # the slots of their own of a map-or-list part (list_condition / map_condition), any condition: index (key)
+        # leaves alone or mixed with value leaves
+        if rng.random() < 0.7:
+            p["lcond"] = gd.spec_tree_recipe(rng, depth=rng.choice([0, 1, 1]), null_p=0.0,
+                                             kinds=rng.choice([[("index", "none")], [("index", "none"), ("value", "none"), ("value", "dtype")], [("value", "none")]]))
+        if rng.random() < 0.7:
+            p["mcond"] = gd.spec_tree_recipe(rng, depth=rng.choice([0, 1, 1]), null_p=0.0,
+                                             kinds=rng.choice([[("key", "none"), ("key", "dtype")], [("key", "none"), ("value", "none"), ("value", "length")], [("value", "dtype")]]))
+        p["pos"] = rng.random() < 0.5
     return p
+
+
+def mol_slots_part(rng):
+    """a map-or-list part recipe with at least one of its own two slots (list_condition / map_condition) given"""
+    while True:
+        p = spec_part_recipe(rng)
+        if p["rk"] == "mol" and (p.get("lcond") is not None or p.get("mcond") is not None):
+            return p
 
 
 def ncomponents(p):
